@@ -74,6 +74,8 @@ def run(chk, replay=None):
         for i, line in enumerate(open(os.path.join(d, f))):
             if line.strip():
                 texts.append(("corpus/%d" % i, "corpus", line.strip(), None))
+    for g in corelib.literal_programs(chk):
+        texts.append((g.label, "literal", g.text, True))
     for i, (tag, text) in enumerate(corelib.scope_type_family()):
         texts.append(("scope-type/%d" % i, "scope-type:" + tag, text, True if tag == "W" else None))
     ex = os.path.join(REPO, "examples")
@@ -110,6 +112,10 @@ def run(chk, replay=None):
         chk.count("%s.%s" % (kind, "accept" if impl_ok else "reject"))
         if m == "panic":
             chk.violation({"class": "model-panic", "what": text[:200]}, dict(base, model=m, broken="the model of ast.rs reaches a panic site on a parsed program (contradicts C04_analyze_no_panic) — would the Rust panic too?"))
+            continue
+        if kind in ("miss:dup-pattern", "miss:scope", "miss:list-bound-nonpow2") and impl_ok and not model_ok:
+            chk.violation({"class": "ill-typed-accepted", "what": "%s: %s" % (kind, text[:300])},
+                          dict(base, model=m[:500], broken="a single edit that violates a static rule by construction (a name bound twice in one pattern / an undefined variable / a list bound that is not a power of two) is accepted"))
             continue
         if kind == "scope-type:I" and impl_ok:
             chk.violation({"class": "ill-typed-accepted", "what": text[:300]}, dict(base, broken="a program that uses a re-bound name at the type of the binding it shadows (or a name that is out of scope) is accepted"))
